@@ -24,6 +24,9 @@ pub unsafe fn register(regs: LanguageGlobs) -> Result<()> {
 
 fn register_impl(regs: LanguageGlobs) -> Result<Vec<(SgLang, Types)>> {
   let mut lang_globs = vec![];
+  // the first registered language wins when globs overlap: do not depend on hash order
+  let mut regs: Vec<_> = regs.into_iter().collect();
+  regs.sort_by(|a, b| a.0.cmp(&b.0));
   for (lang, globs) in regs {
     let lang = SgLang::from_str(&lang).with_context(|| EC::UnrecognizableLanguage(lang))?;
     // Note: we have to use lang.to_string() for normalized language name
